@@ -30,12 +30,20 @@ func (s *verifFrameSink) handleIncomingFrame(frame []byte) { s.onFrame(frame) }
 // applies SetMTU(mtu) the way management faces/create|update does, and returns the transport's own
 // receive loop (runReceive) for the harness to run; onFrame sees what reaches the link service.
 func VerifStreamReceiver(kind string, conn net.Conn, mtu int, onFrame func([]byte)) (func(), error) {
+	recv, _, _, err := VerifStreamTransport(kind, conn, mtu, onFrame)
+	return recv, err
+}
+
+// VerifStreamTransport is VerifStreamReceiver that also returns the transport's own sendFrame (what
+// the link service calls for every outgoing frame) and Close, so that blocks can be SENT through
+// the real transport and read back by a second real transport at the other end of the connection.
+func VerifStreamTransport(kind string, conn net.Conn, mtu int, onFrame func([]byte)) (recv func(), send func([]byte), closeT func(), err error) {
 	var t transport
 	switch kind {
 	case "tcp":
 		tt, err := AcceptUnicastTCPTransport(conn, defn.MakeTCPFaceURI(4, "127.0.0.1", 6363), PersistencyOnDemand)
 		if err != nil {
-			return nil, err
+			return nil, nil, nil, err
 		}
 		t = tt
 	case "unix":
@@ -43,16 +51,16 @@ func VerifStreamReceiver(kind string, conn net.Conn, mtu int, onFrame func([]byt
 		remote := defn.MakeFDFaceURI(3)
 		tt, err := MakeUnixStreamTransport(remote, local, conn)
 		if err != nil {
-			return nil, err
+			return nil, nil, nil, err
 		}
 		t = tt
 	default:
-		return nil, errors.New("unknown stream transport kind")
+		return nil, nil, nil, errors.New("unknown stream transport kind")
 	}
 	s := &verifFrameSink{onFrame: onFrame}
 	s.makeLinkServiceBase()
 	s.transport = t
 	t.setLinkService(s)
 	s.SetMTU(mtu)
-	return t.runReceive, nil
+	return t.runReceive, t.sendFrame, t.Close, nil
 }
